@@ -32,6 +32,11 @@ Modules == {
    items |-> J("s1", Elem(TagCustom("i-foo"), <<Plain("a", AvStr(<<"a">>))>>, <<ChText(<<"b">>)>>))],
   [id |-> "widget", uses |-> {"objslot"}, lang |-> "jsx",       \* no single pattern matches `Widget`
    items |-> J("s1", Elem(TagCustom("Widget"), <<>>, <<ChExpr(Ident("cu", FALSE, PVNode("pv")))>>))],
+  \* member tags whose last name a pattern would match: patterns are matched against whole tag names of plain tags only
+  [id |-> "membertag", uses |-> {}, lang |-> "jsx",
+   items |-> J("s1", Elem(TagMember("o2", "widget", Opq("vo2widget")), <<Plain("class", AvExpr(Ident("k1", FALSE, S(<<100>>))))>>, <<ChText(<<"b">>)>>))],
+  [id |-> "membertagslot", uses |-> {"objslot"}, lang |-> "jsx",
+   items |-> J("s1", Elem(TagMember("o2", "widget", Opq("vo2widget")), <<>>, <<ChExpr(Ident("cu", FALSE, PVNode("pv")))>>))],
   [id |-> "othertag", uses |-> {}, lang |-> "jsx",
    items |-> J("s1", Elem(TagCustom("x-bar"), <<>>, <<ChText(<<"b">>)>>))],
   [id |-> "nojsx", uses |-> {}, lang |-> "jsx", items |-> << [k |-> "raw", text |-> "const q = 1;\nexport default q;"] >>],
